@@ -218,9 +218,19 @@ class Client(object):
     def certificate_requested(self):
         return 13 in self.server_msgs
 
-    def send_app_data(self, data):
+    def send_app_data(self, data, seq=0):
         (ck, civ), _ = self.ks.app_keys(self.transcript_at_server_finished)
-        self.sock.sendall(RT.tls13_protect(ck, civ, (0).to_bytes(8, 'big'), 23, data, 0))
+        self.sock.sendall(RT.tls13_protect(ck, civ, seq.to_bytes(8, 'big'), 23, data, 0))
+
+    def read_app_data(self, seq=0):
+        _, (sk, siv) = self.ks.app_keys(self.transcript_at_server_finished)
+        rec = read_record(self.sock)
+        if rec is None or rec[0] != 23:
+            return None
+        got = RT.tls13_unprotect(sk, siv, seq.to_bytes(8, 'big'), rec)
+        if got is None or got[0] != 23:
+            return None
+        return got[1]
 
 
 # ---- the same, as a hostile server against the library's TLS 1.3 client -------------------------------------------
